@@ -11,7 +11,7 @@
 (***************************************************************************)
 EXTENDS Integers, Sequences
 
-PB(b, off) == b[off + 1]
+PB(b, off) == IF off + 1 \in 1..Len(b) THEN b[off + 1] ELSE 0       \* total: a stream that ends early decodes zeros and `next` runs past Len
 S8(v)  == IF v >= 128 THEN v - 256 ELSE v
 S16(v) == IF v >= 32768 THEN v - 65536 ELSE v
 
